@@ -1,6 +1,6 @@
 /-
 The type of a successful conversion to a placeholder-free target is the target
-type without its optional-attribute annotations (for regular E type pairs).
+type without its optional-attribute annotations.
 -/
 import CtyModel.Lemmas.ConvertPlan
 import CtyModel.Lemmas.ConvertRepl
@@ -10,19 +10,18 @@ namespace Convert
 open Ty
 
 /-- what is assumed of a (source type, target type, value) triple; inherited by members -/
-structure Conds (E : Env) (inT out : Ty) (v : Value) : Prop where
+structure Conds (inT out : Ty) (v : Value) : Prop where
   ty : v.ty = inT
   wfI : inT.wf = true
   wfO : out.wf = true
   optI : inT.hasOpt = false
   dynO : out.hasDyn = false
-  reg : regular E inT out = true
   wt : wtP inT v.v = true
 
 /-- the recursive calls behave: a wrapped conversion yields the erased target type -/
 def RecOK (E : Env) (rec : Rec) : Prop :=
   ∀ (inT out : Ty) (uns : Bool) (c : Plan) (v r : Value), gck E inT out uns = some c →
-    Conds E inT out v → rec (.wrap out c) v = .ok r → r.ty = out.stripOpt
+    Conds inT out v → rec (.wrap out c) v = .ok r → r.ty = out.stripOpt
 
 /-- a plain (unmarked, known, non-null) payload -/
 def plain (p : Payload) : Prop := p.isMarked = false ∧ p.isKnown = true ∧ p.isNull = false
@@ -116,7 +115,7 @@ theorem hasDynL_mem {ts : List Ty} (h : hasDynL ts = false) : ∀ t ∈ ts, hasD
 /-! ### one element -/
 
 theorem planFor_ty {E : Env} {rec : Rec} (hrec : RecOK E rec) {uns : Bool} {it ot : Ty} {p : Plan}
-    {e e' : Value} (hp : PlanFor E uns it ot p) (hc : Conds E it ot e)
+    {e e' : Value} (hp : PlanFor E uns it ot p) (hc : Conds it ot e)
     (h : applyOpt rec p e = .ok e') : e'.ty = ot.stripOpt := by
   rcases hp with ⟨rfl, he⟩ | ⟨c, rfl, hg⟩
   · simp [applyOpt] at h; subst h
@@ -152,7 +151,7 @@ theorem applyZip_all {E : Env} {rec : Rec} (hrec : RecOK E rec) {uns : Bool} {t 
     (hwt : wf t = true) (hdt : hasDyn t = false) :
     ∀ (its : List Ty) (cs : List Plan) (ps : List Payload) (es' : List Value),
     All2 (fun it p => PlanFor E uns it t p) its cs → wtZip its ps = true →
-    (∀ it ∈ its, wf it = true ∧ hasOpt it = false ∧ regular E it t = true) →
+    (∀ it ∈ its, wf it = true ∧ hasOpt it = false ) →
     applyZip rec post cs (zipTys its ps) = .ok es' →
     es'.length = its.length ∧ ∀ e' ∈ es', e'.ty = stripOpt t
   | [], _, [], es', .nil, _, _, h => by simp [zipTys, applyZip] at h; subst h; simp
@@ -164,8 +163,8 @@ theorem applyZip_all {E : Env} {rec : Rec} (hrec : RecOK E rec) {uns : Bool} {t 
     obtain ⟨v', hv', h⟩ := Res.bind_eq_ok h
     obtain ⟨vs', hvs', h⟩ := Res.bind_eq_ok h
     simp at h; subst h
-    obtain ⟨hwi, hoi, hri⟩ := hall it (by simp)
-    have hc : Conds E it t ⟨it, p⟩ := ⟨rfl, hwi, hwt, hoi, hdt, hri, hw.1⟩
+    obtain ⟨hwi, hoi⟩ := hall it (by simp)
+    have hc : Conds it t ⟨it, p⟩ := ⟨rfl, hwi, hwt, hoi, hdt, hw.1⟩
     have h1 := planFor_ty hrec hp hc hv'
     have ih := applyZip_all hrec post hpost hwt hdt its _ ps vs' hps hw.2
       (fun x hx => hall x (by simp [hx])) hvs'
@@ -181,25 +180,23 @@ theorem applyZip_zip {E : Env} {rec : Rec} (hrec : RecOK E rec) {uns : Bool} :
     ∀ (its ots : List Ty) (cs : List Plan) (ps : List Payload) (es' : List Value),
     All3 (fun it ot p => PlanFor E uns it ot p) its ots cs → wtZip its ps = true →
     wfL its = true → hasOptL its = false → wfL ots = true → hasDynL ots = false →
-    regularZip E its ots = true →
     applyZip rec id cs (zipTys its ps) = .ok es' → es'.map (·.ty) = stripOptL ots
-  | [], _, _, [], es', .nil, _, _, _, _, _, _, h => by
+  | [], _, _, [], es', .nil, _, _, _, _, _, h => by
     simp [zipTys, applyZip] at h; subst h; simp [stripOptL]
-  | [], _, _, _ :: _, _, _, hw, _, _, _, _, _, _ => by simp [wtZip] at hw
-  | _ :: _, _, _, [], _, _, hw, _, _, _, _, _, _ => by simp [wtZip] at hw
-  | it :: its, ot :: ots, c :: cs, p :: ps, es', .cons hp hps, hw, hwi, hoi, hwo, hdo, hr, h => by
+  | [], _, _, _ :: _, _, _, hw, _, _, _, _, _ => by simp [wtZip] at hw
+  | _ :: _, _, _, [], _, _, hw, _, _, _, _, _ => by simp [wtZip] at hw
+  | it :: its, ot :: ots, c :: cs, p :: ps, es', .cons hp hps, hw, hwi, hoi, hwo, hdo, h => by
     simp only [wtZip, Bool.and_eq_true] at hw
     simp only [wfL, Bool.and_eq_true] at hwi hwo
     simp only [hasOptL, Bool.or_eq_false_iff] at hoi
     simp only [hasDynL, Bool.or_eq_false_iff] at hdo
-    simp only [regularZip, Bool.and_eq_true] at hr
     simp only [zipTys, applyZip] at h
     obtain ⟨v', hv', h⟩ := Res.bind_eq_ok h
     obtain ⟨vs', hvs', h⟩ := Res.bind_eq_ok h
     simp at h; subst h
-    have hc : Conds E it ot ⟨it, p⟩ := ⟨rfl, hwi.1, hwo.1, hoi.1, hdo.1, hr.1, hw.1⟩
+    have hc : Conds it ot ⟨it, p⟩ := ⟨rfl, hwi.1, hwo.1, hoi.1, hdo.1, hw.1⟩
     have h1 := planFor_ty hrec hp hc hv'
-    have ih := applyZip_zip hrec its ots cs ps vs' hps hw.2 hwi.2 hoi.2 hwo.2 hdo.2 hr.2 hvs'
+    have ih := applyZip_zip hrec its ots cs ps vs' hps hw.2 hwi.2 hoi.2 hwo.2 hdo.2 hvs'
     simp [stripOptL, h1, ih]
 
 /-! ### late unification is the identity when all element types already agree -/
@@ -296,7 +293,7 @@ theorem lookupVal_cons (n k : String) (v : Value) (ns : List String) (vs : List 
 def AttrOK (E : Env) (uns : Bool) (on : List String) (ot : List Ty) (oo : List Bool)
     (keys : List String) (convs : List Plan) (n : String) (it : Ty) (p : Plan) : Prop :=
   lookupPlan n keys convs = some p ∧ AttrPlan E uns on ot oo n it p ∧ wf it = true ∧ hasOpt it = false ∧
-  ∀ oty o, Ty.find n on ot oo = some (oty, o) → wf oty = true ∧ hasDyn oty = false ∧ regular E it oty = true
+  ∀ oty o, Ty.find n on ot oo = some (oty, o) → wf oty = true ∧ hasDyn oty = false
 
 theorem objAttrLoop_spec {E : Env} {rec : Rec} (hrec : RecOK E rec) {uns : Bool} {on : List String}
     {ot : List Ty} {oo : List Bool} {keys : List String} {convs : List Plan} :
@@ -321,8 +318,8 @@ theorem objAttrLoop_spec {E : Env} {rec : Rec} (hrec : RecOK E rec) {uns : Bool}
       rcases List.mem_cons.mp hn' with rfl | hn'
       · simp [hfn] at hs
       · exact ih.2 n' hn' hs
-    · have hc : Conds E it oty ⟨it, p⟩ :=
-        ⟨rfl, hwi, (hout oty o hf).1, hoi, (hout oty o hf).2.1, (hout oty o hf).2.2, hw.1⟩
+    · have hc : Conds it oty ⟨it, p⟩ :=
+        ⟨rfl, hwi, (hout oty o hf).1, hoi, (hout oty o hf).2, hw.1⟩
       have hstep : ∀ v', applyOpt rec c ⟨it, p⟩ = .ok v' → (stripNull v').ty = stripOpt oty :=
         fun v' hv' => stripNull_ty' (planFor_ty hrec hpf hc hv')
       have hnotabs : c ≠ .absent := by
@@ -428,7 +425,7 @@ theorem mapObjLoop_spec {E : Env} {rec : Rec} (hrec : RecOK E rec) {uns : Bool} 
     (hl1 : names.length = tys.length) (hl2 : opts.length = tys.length)
     (hwi : wf ie = true) (hoi : hasOpt ie = false)
     (hty : ∀ n t o, Ty.find n names tys opts = some (t, o) →
-      wf t = true ∧ hasDyn t = false ∧ regular E ie t = true) :
+      wf t = true ∧ hasDyn t = false) :
     ∀ (ks : List String) (ps : List Payload) (r : List String × List Value), wtAll ie ps = true →
     mapObjLoop rec names tys opts convs ks (ps.map fun p => ⟨ie, p⟩) = .ok r →
     ∀ n v, lookupVal n r.1 r.2 = some v → ∀ t o, Ty.find n names tys opts = some (t, o) → v.ty = stripOpt t
@@ -446,7 +443,7 @@ theorem mapObjLoop_spec {E : Env} {rec : Rec} (hrec : RecOK E rec) {uns : Bool} 
       have hsome := find_of_contains names tys opts hl1 hl2 hc'
       obtain ⟨⟨t, o⟩, hf⟩ := Option.isSome_iff_exists.mp hsome
       obtain ⟨pl, hlk, hmp⟩ := find_lookupPlan names tys opts convs hpl hf
-      obtain ⟨hwt, hdt, hrt⟩ := hty k t o hf
+      obtain ⟨hwt, hdt⟩ := hty k t o hf
       simp only [hlk] at h
       obtain ⟨v', hv', h⟩ := Res.bind_eq_ok h
       obtain ⟨r', hr', h⟩ := Res.bind_eq_ok h
@@ -460,7 +457,7 @@ theorem mapObjLoop_spec {E : Env} {rec : Rec} (hrec : RecOK E rec) {uns : Bool} 
           subst this
           simp [stripOpt_id_of_noOpt _ hoi]
         · simp at hv'
-          exact hrec ie t uns c ⟨ie, p⟩ v' hg ⟨rfl, hwi, hwt, hoi, hdt, hrt, hw.1⟩ hv'
+          exact hrec ie t uns c ⟨ie, p⟩ v' hg ⟨rfl, hwi, hwt, hoi, hdt, hw.1⟩ hv'
       intro n v hl t' o' hf'
       simp only [lookupVal_cons] at hl
       split at hl
@@ -539,25 +536,6 @@ theorem find_mem_ty {k : String} : ∀ {ns : List String} {ts : List Ty} {os : L
     · simp at h; simp [h.1]
     · exact List.mem_cons_of_mem _ (find_mem_ty h)
 
-theorem regularObj_find {inn : List String} {its : List Ty} {ios : List Bool} {n : String} {oty : Ty} {o : Bool} :
-    ∀ (ns : List String) (os : List Ty) (oos : List Bool), regularObj E inn its ios ns os = true →
-    Ty.find n ns os oos = some (oty, o) → ∀ it b, Ty.find n inn its ios = some (it, b) → regular E it oty = true
-  | [], _, _, _, h => by simp [Ty.find] at h
-  | _ :: _, [], _, _, h => by simp [Ty.find] at h
-  | _ :: _, _ :: _, [], _, h => by simp [Ty.find] at h
-  | m :: ns, t :: os, b' :: oos, hr, h => by
-    simp only [regularObj, Bool.and_eq_true] at hr
-    simp only [Ty.find] at h
-    split at h
-    · rename_i hmn
-      subst hmn
-      simp at h
-      intro it b hf
-      have h1 := hr.1
-      simp only [hf] at h1
-      rw [← h.1]; exact h1
-    · exact regularObj_find ns os oos hr.2 h
-
 theorem find_prefix : ∀ (pre : List String) (preT : List Ty) (preB : List Bool) (k : String) (post : List String)
     (t : Ty) (postT : List Ty) (b : Bool) (postB : List Bool), pre.length = preT.length →
     preB.length = preT.length → k ∉ pre →
@@ -572,14 +550,6 @@ theorem find_prefix : ∀ (pre : List String) (preT : List Ty) (preB : List Bool
     simp only [List.cons_append, Ty.find, hak, if_false]
     exact find_prefix pre preT preB k post t postT b postB (by simpa using h1) (by simpa using h2)
       (fun h => hk (by simp [h]))
-
-theorem regularAll_mem {ie : Ty} : ∀ {os : List Ty}, regularAll E ie os = true → ∀ t ∈ os, regular E ie t = true
-  | [], _, _, h => by simp at h
-  | o :: os, hr, t, ht => by
-    simp only [regularAll, Bool.and_eq_true] at hr
-    rcases List.mem_cons.mp ht with rfl | ht
-    · exact hr.1
-    · exact regularAll_mem hr.2 t ht
 
 theorem map_false_of_length {α β} {l : List α} {m : List β} (h : l.length = m.length) :
     l.map (fun _ => false) = m.map (fun _ => false) := by
@@ -603,7 +573,7 @@ def ElemsOK (E : Env) (v : Value) (ie : Ty) : Prop :=
 theorem converted_members {uns : Bool} {ie oe conv} {post : Value → Value}
     (hpost : ∀ v : Value, v.ty = stripOpt oe → (post v).ty = stripOpt oe)
     (hpf : PlanFor E uns ie oe conv) (hwi : wf ie = true) (hoi : hasOpt ie = false)
-    (hwo : wf oe = true) (hdo : hasDyn oe = false) (hreg : regular E ie oe = true)
+    (hwo : wf oe = true) (hdo : hasDyn oe = false)
     {es es' : List Value} (hes : ∀ e ∈ es, e.ty = ie ∧ wtP ie e.v = true)
     (h : mapRes (fun e => (applyOpt rec conv e).map post) es = .ok es') :
     es'.length = es.length ∧ ∀ e' ∈ es', e'.ty = stripOpt oe := by
@@ -611,11 +581,11 @@ theorem converted_members {uns : Bool} {ie oe conv} {post : Value → Value}
     ?_ es es' hes h
   intro a b ⟨hat, haw⟩ hb
   obtain ⟨b', hb', rfl⟩ := Res.map_eq_ok hb
-  exact hpost _ (planFor_ty hrec hpf ⟨hat, hwi, hwo, hoi, hdo, hreg, haw⟩ hb')
+  exact hpost _ (planFor_ty hrec hpf ⟨hat, hwi, hwo, hoi, hdo, haw⟩ hb')
 
 theorem collToList_ty {uns : Bool} {ie oe conv} {v r : Value}
     (hpf : PlanFor E uns ie oe conv) (hwi : wf ie = true) (hoi : hasOpt ie = false)
-    (hwo : wf oe = true) (hdo : hasDyn oe = false) (hreg : regular E ie oe = true)
+    (hwo : wf oe = true) (hdo : hasDyn oe = false)
     (hel : ElemsOK E v ie) (h : applyStep E rec (.collToList oe conv) v = .ok r) :
     r.ty = .list oe.stripOpt := by
   have hnd : oe.isDyn = false := not_isDyn_of_noDyn hdo
@@ -625,7 +595,7 @@ theorem collToList_ty {uns : Bool} {ie oe conv} {v r : Value}
   · obtain ⟨es, hes, h⟩ := Res.bind_eq_ok h
     obtain ⟨es', hes', h⟩ := Res.bind_eq_ok h
     have hm := converted_members hU hrec (post := stripNull) (fun _ hv => stripNull_ty' hv)
-      hpf hwi hoi hwo hdo hreg (hel es hes) hes'
+      hpf hwi hoi hwo hdo (hel es hes) hes'
     split at h
     · simp at h; subst h; rfl
     · rename_i hne
@@ -637,7 +607,7 @@ theorem collToList_ty {uns : Bool} {ie oe conv} {v r : Value}
 
 theorem collToSet_ty {uns : Bool} {ie oe conv} {v r : Value}
     (hpf : PlanFor E uns ie oe conv) (hwi : wf ie = true) (hoi : hasOpt ie = false)
-    (hwo : wf oe = true) (hdo : hasDyn oe = false) (hreg : regular E ie oe = true)
+    (hwo : wf oe = true) (hdo : hasDyn oe = false)
     (hel : ElemsOK E v ie) (h : applyStep E rec (.collToSet oe conv) v = .ok r) :
     r.ty = .set oe.stripOpt := by
   have hnd : oe.isDyn = false := not_isDyn_of_noDyn hdo
@@ -645,7 +615,7 @@ theorem collToSet_ty {uns : Bool} {ie oe conv} {v r : Value}
   obtain ⟨es, hes, h⟩ := Res.bind_eq_ok h
   obtain ⟨es', hes', h⟩ := Res.bind_eq_ok h
   have hm := converted_members hU hrec (post := stripNull) (fun _ hv => stripNull_ty' hv)
-    hpf hwi hoi hwo hdo hreg (hel es hes) hes'
+    hpf hwi hoi hwo hdo (hel es hes) hes'
   split at h
   · simp at h; subst h; rfl
   · rename_i hne
@@ -657,7 +627,7 @@ theorem collToSet_ty {uns : Bool} {ie oe conv} {v r : Value}
 
 theorem collToMap_ty {uns : Bool} {ie oe conv} {v r : Value}
     (hpf : PlanFor E uns ie oe conv) (hwi : wf ie = true) (hoi : hasOpt ie = false)
-    (hwo : wf oe = true) (hdo : hasDyn oe = false) (hreg : regular E ie oe = true)
+    (hwo : wf oe = true) (hdo : hasDyn oe = false)
     (hel : ElemsOK E v ie) (h : applyStep E rec (.collToMap oe conv) v = .ok r) :
     r.ty = .map oe.stripOpt := by
   have hnd : oe.isDyn = false := not_isDyn_of_noDyn hdo
@@ -669,7 +639,7 @@ theorem collToMap_ty {uns : Bool} {ie oe conv} {v r : Value}
       funext e; cases applyOpt rec conv e <;> rfl
     rw [this]; exact hes'
   have hm := converted_members hU hrec (post := id) (fun _ hv => hv)
-    hpf hwi hoi hwo hdo hreg (hel es hes) hes''
+    hpf hwi hoi hwo hdo (hel es hes) hes''
   split at h
   · simp at h; subst h; rfl
   · rename_i hne
@@ -687,7 +657,7 @@ theorem collToMap_ty {uns : Bool} {ie oe conv} {v r : Value}
 
 theorem tupToList_ty {uns : Bool} {its : List Ty} {oe : Ty} {cs : List Plan} {ps : List Payload} {r : Value}
     (hpl : All2 (fun it p => PlanFor E uns it oe p) its cs) (hne : its ≠ []) (hw : wtZip its ps = true)
-    (hall : ∀ it ∈ its, wf it = true ∧ hasOpt it = false ∧ regular E it oe = true)
+    (hall : ∀ it ∈ its, wf it = true ∧ hasOpt it = false)
     (hwo : wf oe = true) (hdo : hasDyn oe = false)
     (h : applyStep E rec (.tupToList cs uns) ⟨.tuple its, .seq ps⟩ = .ok r) : r.ty = .list oe.stripOpt := by
   simp only [applyStep, elemsOf] at h
@@ -708,7 +678,7 @@ theorem tupToList_ty {uns : Bool} {its : List Ty} {oe : Ty} {cs : List Plan} {ps
 
 theorem tupToSet_ty {uns : Bool} {its : List Ty} {oe : Ty} {cs : List Plan} {ps : List Payload} {r : Value}
     (hpl : All2 (fun it p => PlanFor E uns it oe p) its cs) (hne : its ≠ []) (hw : wtZip its ps = true)
-    (hall : ∀ it ∈ its, wf it = true ∧ hasOpt it = false ∧ regular E it oe = true)
+    (hall : ∀ it ∈ its, wf it = true ∧ hasOpt it = false)
     (hwo : wf oe = true) (hdo : hasDyn oe = false)
     (h : applyStep E rec (.tupToSet cs) ⟨.tuple its, .seq ps⟩ = .ok r) : r.ty = .set oe.stripOpt := by
   simp only [applyStep, elemsOf] at h
@@ -749,7 +719,7 @@ theorem objToMap_ty {uns : Bool} {inn : List String} {its : List Ty} {ios : List
     {cs : List Plan} {ps : List Payload} {r : Value}
     (hpl : All2 (fun it p => PlanFor E uns it oe p) its cs) (hne : its ≠ []) (hw : wtZip its ps = true)
     (hnd : inn.Nodup) (hln : inn.length = its.length)
-    (hall : ∀ it ∈ its, wf it = true ∧ hasOpt it = false ∧ regular E it oe = true)
+    (hall : ∀ it ∈ its, wf it = true ∧ hasOpt it = false)
     (hwo : wf oe = true) (hdo : hasDyn oe = false)
     (h : applyStep E rec (.objToMap inn cs oe uns) ⟨.object inn its ios, .smap inn ps⟩ = .ok r) :
     r.ty = .map oe.stripOpt := by
@@ -781,14 +751,13 @@ omit hU in
 theorem tupToTup_ty {uns : Bool} {its ots : List Ty} {cs : List Plan} {ps : List Payload} {r : Value}
     (hpl : All3 (fun it ot p => PlanFor E uns it ot p) its ots cs) (hw : wtZip its ps = true)
     (hwi : wfL its = true) (hoi : hasOptL its = false) (hwo : wfL ots = true) (hdo : hasDynL ots = false)
-    (hr : regularZip E its ots = true)
     (h : applyStep E rec (.tupToTup cs) ⟨.tuple its, .seq ps⟩ = .ok r) : r.ty = .tuple (stripOptL ots) := by
   simp only [applyStep, elemsOf] at h
   obtain ⟨es, hes, h⟩ := Res.bind_eq_ok h
   simp at hes; subst hes
   obtain ⟨es', hes', h⟩ := Res.bind_eq_ok h
   simp at h; subst h
-  simp [tupleVal, applyZip_zip hrec its ots cs ps es' hpl hw hwi hoi hwo hdo hr hes']
+  simp [tupleVal, applyZip_zip hrec its ots cs ps es' hpl hw hwi hoi hwo hdo hes']
 
 omit hU hrec in
 theorem attrOK_build {uns : Bool} {on : List String} {ot : List Ty} {oo : List Bool} :
@@ -799,7 +768,7 @@ theorem attrOK_build {uns : Bool} {on : List String} {ot : List Ty} {oo : List B
     All3 (AttrPlan E uns on ot oo) ns its cs →
     (∀ n it b, Ty.find n (pre ++ ns) (preT ++ its) (preB ++ ios) = some (it, b) →
       wf it = true ∧ hasOpt it = false ∧ ∀ oty o, Ty.find n on ot oo = some (oty, o) →
-        wf oty = true ∧ hasDyn oty = false ∧ regular E it oty = true) →
+        wf oty = true ∧ hasDyn oty = false) →
     All3 (AttrOK E uns on ot oo (pre ++ ns) (preC ++ cs)) ns its cs
   | _, _, _, _, [], _, _, _, _, _, _, _, _, _, .nil, _ => .nil
   | _, _, _, _, _ :: _, _ :: _, [], _, _, _, _, h, _, _, _, _ => by simp at h
@@ -840,7 +809,7 @@ theorem objToObj_ty {uns : Bool} {inn : List String} {its : List Ty} {ios : List
     (hpl : All3 (AttrPlan E uns on ot oo) inn its cs) (hw : wtZip its ps = true)
     (hwfI : wf (.object inn its ios) = true) (hoI : hasOpt (.object inn its ios) = false)
     (hwfO : wf (.object on ot oo) = true) (hdO : hasDyn (.object on ot oo) = false)
-    (hreg : regularObj E inn its ios on ot = true) (hreq : requiredPresent on oo inn = true)
+    (hreq : requiredPresent on oo inn = true)
     (h : applyStep E rec (.objToObj inn cs on ot oo) ⟨.object inn its ios, .smap inn ps⟩ = .ok r) :
     r.ty = .object on (stripOptL ot) (oo.map fun _ => false) := by
   simp only [wf, Bool.and_eq_true, beq_iff_eq] at hwfI hwfO
@@ -858,8 +827,7 @@ theorem objToObj_ty {uns : Bool} {inn : List String} {its : List Ty} {ios : List
       simp only [List.nil_append] at hf
       refine ⟨wfL_mem hwfI.2 it (find_mem_ty hf), hasOptL_mem hoI.2 it (find_mem_ty hf), ?_⟩
       intro oty o hfo
-      exact ⟨wfL_mem hwfO.2 oty (find_mem_ty hfo), hasDynL_mem hdO oty (find_mem_ty hfo),
-        regularObj_find on ot oo hreg hfo it b hf⟩)
+      exact ⟨wfL_mem hwfO.2 oty (find_mem_ty hfo), hasDynL_mem hdO oty (find_mem_ty hfo)⟩)
   simp only [List.nil_append] at hok
   have hspec := objAttrLoop_spec hrec inn its cs ps rr hok hw hrr
   have hfill := fillOK_build (names := rr.1) (vals := rr.2) hspec.2 on ot oo (FieldsIn_self hwfO.1.2) hreq
@@ -875,7 +843,6 @@ theorem mapToObj_ty {uns : Bool} {ie : Ty} {on : List String} {ot : List Ty} {oo
     (hpl : All2 (fun t p => MapObjPlan E uns ie t p) ot cs) (hw : wtAll ie ps = true)
     (hwi : wf ie = true) (hoi : hasOpt ie = false)
     (hwfO : wf (.object on ot oo) = true) (hdO : hasDyn (.object on ot oo) = false)
-    (hreg : regularAll E ie ot = true)
     (h : applyStep E rec (.mapToObj on ot oo cs) ⟨.map ie, .smap ks ps⟩ = .ok r) :
     r.ty = .object on (stripOptL ot) (oo.map fun _ => false) := by
   simp only [wf, Bool.and_eq_true, beq_iff_eq] at hwfO
@@ -886,10 +853,9 @@ theorem mapToObj_ty {uns : Bool} {ie : Ty} {on : List String} {ot : List Ty} {oo
   obtain ⟨rr, hrr, h⟩ := Res.bind_eq_ok h
   obtain ⟨vals, hvals, h⟩ := Res.bind_eq_ok h
   simp at h; subst h
-  have hregmem := regularAll_mem hreg
   have hspec := mapObjLoop_spec hrec hpl hwfO.1.1.1 hwfO.1.1.2 hwi hoi (by
       intro n t o hf
-      exact ⟨wfL_mem hwfO.2 t (find_mem_ty hf), hasDynL_mem hdO t (find_mem_ty hf), hregmem t (find_mem_ty hf)⟩)
+      exact ⟨wfL_mem hwfO.2 t (find_mem_ty hf), hasDynL_mem hdO t (find_mem_ty hf)⟩)
     ks ps rr hw hrr
   have htys := mapObjFill_spec hspec on ot oo vals hwfO.1.1.1 hwfO.1.1.2 (FieldsIn_self hwfO.1.2) hvals
   have hlen : vals.length = oo.length := by
@@ -935,9 +901,9 @@ theorem strToBool_ty {E : Env} {rec : Rec} {v r : Value} (h : applyStep E rec .s
 
 theorem inner_ty {E : Env} (hU : UnifyLaws E) {rec : Rec} (hrec : RecOK E rec)
     (inT out : Ty) (uns : Bool) (c : Plan) (v r : Value) (hg : gck E inT out uns = some c)
-    (hc : Conds E inT out v) (hp : plain v.v) (h : applyStep E rec c v = .ok r) :
+    (hc : Conds inT out v) (hp : plain v.v) (h : applyStep E rec c v = .ok r) :
     r.ty = out.stripOpt := by
-  obtain ⟨hty, hwI, hwO, hoI, hdO, hreg, hwt⟩ := hc
+  obtain ⟨hty, hwI, hwO, hoI, hdO, hwt⟩ := hc
   obtain ⟨vt, vp⟩ := v
   simp only at hty hwt hp
   subst hty
@@ -965,7 +931,6 @@ theorem inner_ty {E : Env} (hU : UnifyLaws E) {rec : Rec} (hrec : RecOK E rec)
     case list ie =>
       have hwi : wf ie = true := by simpa [wf] using hwI
       have hoi : hasOpt ie = false := by simpa [hasOpt] using hoI
-      have hr : regular E ie oe = true := by simpa [regular, Ty.isDyn] using hreg
       obtain ⟨ps, rfl, hps⟩ := shape_list hp hwt
       have hel : ElemsOK E ⟨.list ie, .seq ps⟩ ie := by
         intro es hes e he
@@ -978,11 +943,10 @@ theorem inner_ty {E : Env} (hU : UnifyLaws E) {rec : Rec} (hrec : RecOK E rec)
         · obtain ⟨c', hc', rfl⟩ := Option.map_eq_some_iff.mp hg
           exact ⟨_, rfl, .inr ⟨c', rfl, hc'⟩⟩
       obtain ⟨conv, rfl, hpf⟩ := hpf
-      simp [stripOpt, collToList_ty hU hrec hpf hwi hoi hwo hdo hr hel h]
+      simp [stripOpt, collToList_ty hU hrec hpf hwi hoi hwo hdo hel h]
     case set ie =>
       have hwi : wf ie = true := by simpa [wf] using hwI
       have hoi : hasOpt ie = false := by simpa [hasOpt] using hoI
-      have hr : regular E ie oe = true := by simpa [regular, Ty.isDyn] using hreg
       obtain ⟨ids, ps, rfl, hps⟩ := shape_set hp hwt
       have hel : ElemsOK E ⟨.set ie, .sset ids ps⟩ ie := by
         intro es hes e he
@@ -995,14 +959,10 @@ theorem inner_ty {E : Env} (hU : UnifyLaws E) {rec : Rec} (hrec : RecOK E rec)
         · obtain ⟨c', hc', rfl⟩ := Option.map_eq_some_iff.mp hg
           exact ⟨_, rfl, .inr ⟨c', rfl, hc'⟩⟩
       obtain ⟨conv, rfl, hpf⟩ := hpf
-      simp [stripOpt, collToList_ty hU hrec hpf hwi hoi hwo hdo hr hel h]
+      simp [stripOpt, collToList_ty hU hrec hpf hwi hoi hwo hdo hel h]
     case tuple its =>
       have hwi : wfL its = true := by simpa [wf] using hwI
       have hoi : hasOptL its = false := by simpa [hasOpt] using hoI
-      have hr : ∀ it ∈ its, regular E it oe = true := by
-        have := hreg
-        simp only [regular, Ty.isDyn, Bool.false_eq_true, if_false, Bool.and_eq_true] at this
-        exact all_of_regular this.1
       obtain ⟨ps, rfl, hps⟩ := shape_tuple hp hwt
       split at hg
       · simp at hg; subst hg
@@ -1014,7 +974,7 @@ theorem inner_ty {E : Env} (hU : UnifyLaws E) {rec : Rec} (hrec : RecOK E rec)
         obtain ⟨cs, hcs, rfl⟩ := Option.map_eq_some_iff.mp hg
         have hpl := gcAll_inv E uns oe hcs
         simp [stripOpt, tupToList_ty hU hrec hpl hne hps
-          (fun it hit => ⟨wfL_mem hwi it hit, hasOptL_mem hoi it hit, hr it hit⟩) hwo hdo h]
+          (fun it hit => ⟨wfL_mem hwi it hit, hasOptL_mem hoi it hit⟩) hwo hdo h]
   | set oe =>
     have hwo : wf oe = true := by simpa [wf] using hwO
     have hdo : hasDyn oe = false := by simpa [hasDyn] using hdO
@@ -1022,7 +982,6 @@ theorem inner_ty {E : Env} (hU : UnifyLaws E) {rec : Rec} (hrec : RecOK E rec)
     case list ie =>
       have hwi : wf ie = true := by simpa [wf] using hwI
       have hoi : hasOpt ie = false := by simpa [hasOpt] using hoI
-      have hr : regular E ie oe = true := by simpa [regular, Ty.isDyn] using hreg
       obtain ⟨ps, rfl, hps⟩ := shape_list hp hwt
       have hel : ElemsOK E ⟨.list ie, .seq ps⟩ ie := by
         intro es hes e he
@@ -1036,11 +995,10 @@ theorem inner_ty {E : Env} (hU : UnifyLaws E) {rec : Rec} (hrec : RecOK E rec)
         · obtain ⟨c', hc', rfl⟩ := Option.map_eq_some_iff.mp hg
           exact ⟨_, rfl, .inr ⟨c', rfl, hc'⟩⟩
       obtain ⟨conv, rfl, hpf⟩ := hpf
-      simp [stripOpt, collToSet_ty hU hrec hpf hwi hoi hwo hdo hr hel h]
+      simp [stripOpt, collToSet_ty hU hrec hpf hwi hoi hwo hdo hel h]
     case set ie =>
       have hwi : wf ie = true := by simpa [wf] using hwI
       have hoi : hasOpt ie = false := by simpa [hasOpt] using hoI
-      have hr : regular E ie oe = true := by simpa [regular, Ty.isDyn] using hreg
       obtain ⟨ids, ps, rfl, hps⟩ := shape_set hp hwt
       have hel : ElemsOK E ⟨.set ie, .sset ids ps⟩ ie := by
         intro es hes e he
@@ -1053,14 +1011,10 @@ theorem inner_ty {E : Env} (hU : UnifyLaws E) {rec : Rec} (hrec : RecOK E rec)
         · obtain ⟨c', hc', rfl⟩ := Option.map_eq_some_iff.mp hg
           exact ⟨_, rfl, .inr ⟨c', rfl, hc'⟩⟩
       obtain ⟨conv, rfl, hpf⟩ := hpf
-      simp [stripOpt, collToSet_ty hU hrec hpf hwi hoi hwo hdo hr hel h]
+      simp [stripOpt, collToSet_ty hU hrec hpf hwi hoi hwo hdo hel h]
     case tuple its =>
       have hwi : wfL its = true := by simpa [wf] using hwI
       have hoi : hasOptL its = false := by simpa [hasOpt] using hoI
-      have hr : ∀ it ∈ its, regular E it oe = true := by
-        have := hreg
-        simp only [regular, Ty.isDyn, Bool.false_eq_true, if_false, Bool.and_eq_true] at this
-        exact all_of_regular this.1
       obtain ⟨ps, rfl, hps⟩ := shape_tuple hp hwt
       split at hg
       · simp at hg; subst hg
@@ -1072,7 +1026,7 @@ theorem inner_ty {E : Env} (hU : UnifyLaws E) {rec : Rec} (hrec : RecOK E rec)
         obtain ⟨cs, hcs, rfl⟩ := Option.map_eq_some_iff.mp hg
         have hpl := gcAll_inv E uns oe hcs
         simp [stripOpt, tupToSet_ty hU hrec hpl hne hps
-          (fun it hit => ⟨wfL_mem hwi it hit, hasOptL_mem hoi it hit, hr it hit⟩) hwo hdo h]
+          (fun it hit => ⟨wfL_mem hwi it hit, hasOptL_mem hoi it hit⟩) hwo hdo h]
   | map oe =>
     have hwo : wf oe = true := by simpa [wf] using hwO
     have hdo : hasDyn oe = false := by simpa [hasDyn] using hdO
@@ -1080,7 +1034,6 @@ theorem inner_ty {E : Env} (hU : UnifyLaws E) {rec : Rec} (hrec : RecOK E rec)
     case map ie =>
       have hwi : wf ie = true := by simpa [wf] using hwI
       have hoi : hasOpt ie = false := by simpa [hasOpt] using hoI
-      have hr : regular E ie oe = true := by simpa [regular, Ty.isDyn] using hreg
       obtain ⟨ks, ps, rfl, _, hps⟩ := shape_map hp hwt
       have hel : ElemsOK E ⟨.map ie, .smap ks ps⟩ ie := by
         intro es hes e he
@@ -1088,16 +1041,12 @@ theorem inner_ty {E : Env} (hU : UnifyLaws E) {rec : Rec} (hrec : RecOK E rec)
         obtain ⟨p, hpm, rfl⟩ := List.mem_map.mp he
         exact ⟨rfl, wtAll_mem hps p hpm⟩
       obtain ⟨c', hc', rfl⟩ := hg
-      simp [stripOpt, collToMap_ty hU hrec (.inr ⟨c', rfl, hc'⟩) hwi hoi hwo hdo hr hel h]
+      simp [stripOpt, collToMap_ty hU hrec (.inr ⟨c', rfl, hc'⟩) hwi hoi hwo hdo hel h]
     case object inn its ios =>
       have hwi : wfL its = true := by
         simp only [wf, Bool.and_eq_true] at hwI; exact hwI.2
       have hoi : hasOptL its = false := by
         simp only [hasOpt, Bool.or_eq_false_iff] at hoI; exact hoI.2
-      have hr : ∀ it ∈ its, regular E it oe = true := by
-        have := hreg
-        simp only [regular, Ty.isDyn, Bool.false_eq_true, if_false, Bool.and_eq_true] at this
-        exact all_of_regular this.1
       obtain ⟨ps, rfl, hps⟩ := shape_object hp hwt
       split at hg
       · simp at hg; subst hg
@@ -1110,36 +1059,32 @@ theorem inner_ty {E : Env} (hU : UnifyLaws E) {rec : Rec} (hrec : RecOK E rec)
         have hpl := gcAll_inv E uns oe hcs
         simp only [wf, Bool.and_eq_true, beq_iff_eq] at hwI
         simp [stripOpt, objToMap_ty hU hrec hpl hne hps (strictAsc_nodup hwI.1.2) hwI.1.1.1
-          (fun it hit => ⟨wfL_mem hwi it hit, hasOptL_mem hoi it hit, hr it hit⟩) hwo hdo h]
+          (fun it hit => ⟨wfL_mem hwi it hit, hasOptL_mem hoi it hit⟩) hwo hdo h]
   | tuple ots =>
     cases vt <;> simp [gck, Ty.isDyn, isPrim] at hg hid
     case tuple its =>
       obtain ⟨hlen, cs, hcs, rfl⟩ := hg
       obtain ⟨ps, rfl, hps⟩ := shape_tuple hp hwt
-      have hr : regularZip E its ots = true := by
-        have := hreg; simp [regular, Ty.isDyn] at this; exact this.2
       have hpl := gcZip_inv E uns hlen hcs
       simp [stripOpt, tupToTup_ty hrec hpl hps (by simpa [wf] using hwI) (by simpa [hasOpt] using hoI)
-        (by simpa [wf] using hwO) (by simpa [hasDyn] using hdO) hr h]
+        (by simpa [wf] using hwO) (by simpa [hasDyn] using hdO) h]
   | object on ot oo =>
     cases vt <;> simp [gck, Ty.isDyn, isPrim] at hg hid
     case map ie =>
       obtain ⟨_, cs, hcs, rfl⟩ := hg
       obtain ⟨ks, ps, rfl, _, hps⟩ := shape_map hp hwt
-      have hr := hreg; simp [regular, Ty.isDyn] at hr
       have hwO' := hwO
       simp only [wf, Bool.and_eq_true, beq_iff_eq] at hwO'
       have hpl := mapToObjConvs_inv E uns ie (hwO'.1.1.2.symm) hcs
       simp [stripOpt, mapToObj_ty hU hrec hpl hps (by simpa [wf] using hwI) (by simpa [hasOpt] using hoI)
-        hwO hdO hr h]
+        hwO hdO h]
     case object inn its ios =>
       obtain ⟨hreq, cs, hcs, rfl⟩ := hg
       obtain ⟨ps, rfl, hps⟩ := shape_object hp hwt
-      have hr : regularObj E inn its ios on ot = true := by simpa [regular, Ty.isDyn] using hreg
       have hwI' := hwI
       simp only [wf, Bool.and_eq_true, beq_iff_eq] at hwI'
       have hpl := gcObj_inv E uns on ot oo hwI'.1.1.1 hcs
-      simp [stripOpt, objToObj_ty hU hrec hpl hps hwI hoI hwO hdO hr hreq h]
+      simp [stripOpt, objToObj_ty hU hrec hpl hps hwI hoI hwO hdO hreq h]
 
 /-! ### the wrapper, and every fuel -/
 
@@ -1165,8 +1110,8 @@ theorem recOK_apply {E : Env} (hU : UnifyLaws E) : ∀ n, RecOK E (apply E n) :=
         split at h
         · rename_i r0 hr0
           simp at h; subst h
-          have hc' : Conds E inT out v.unmark :=
-            ⟨hc.ty, hc.wfI, hc.wfO, hc.optI, hc.dynO, hc.reg, unmark_wt hm hc.wt⟩
+          have hc' : Conds inT out v.unmark :=
+            ⟨hc.ty, hc.wfI, hc.wfO, hc.optI, hc.dynO, unmark_wt hm hc.wt⟩
           exact ih n (Nat.lt_succ_self n) inT out uns c v.unmark r0 hg hc' hr0
         · rename_i hno
           exact absurd h (by
@@ -1176,7 +1121,7 @@ theorem recOK_apply {E : Env} (hU : UnifyLaws E) : ∀ n, RecOK E (apply E n) :=
         simp only [hnd, Bool.false_eq_true, if_false] at h
         split at h
         · -- unknown or null: the type comes from dynamicReplace
-          have hrepl := dynRepl_id E hU inT out hc.reg hc.dynO hc.wfO
+          have hrepl := dynRepl_id E inT out hc.dynO hc.wfO
           rw [hc.ty, hrepl] at h
           simp only at h
           split at h
